@@ -692,6 +692,10 @@ class Expander:
         f = node.func
         q = self.qualified(f)
         fname = q.split(".")[-1] if q else None
+        if isinstance(f, ast.Name) and q is None and f.id == "divmod" and len(node.args) == 2 and not node.keywords and "divmod" not in env:
+            # the builtin: (a // b, a % b), the very atoms the operators give
+            a_, b_ = self.need_r(self.eval(node.args[0], env)), self.need_r(self.eval(node.args[1], env))
+            return TupleV([anf.fn_("floordiv", a_, b_), anf.fn_("mod", a_, b_)])
         if isinstance(f, ast.Name) and q is None and f.id in ("abs", "float", "int", "sum", "len",
                                                               "max", "min", "copy", "deepcopy"):
             fname = f.id
